@@ -28,13 +28,19 @@ func init() {
 	childModes["c11child"] = c11Child
 }
 
-var c11Engines = []string{"scorch-disk", "scorch-mem", "upsidedown-gtreap", "upsidedown-boltdb"}
+var c11Engines = []string{"scorch-disk", "scorch-mem", "upsidedown-gtreap", "upsidedown-boltdb", "scorch-disk-paced"}
 
 func c11Open(engine, dir string) (bleve.Index, error) {
 	small := map[string]interface{}{"maxSegmentsPerTier": 2, "segmentsPerMergeTask": 2, "floorSegmentSize": 1}
 	switch engine {
 	case "scorch-disk":
 		return bleve.NewUsing(filepath.Join(dir, "i"), bleve.NewIndexMapping(), scorch.Name, scorch.Name, map[string]interface{}{"scorchMergePlanOptions": small})
+	case "scorch-disk-paced":
+		// the persister paces itself against the merger once the directory holds a few files (default: 1000)
+		return bleve.NewUsing(filepath.Join(dir, "i"), bleve.NewIndexMapping(), scorch.Name, scorch.Name, map[string]interface{}{
+			"scorchMergePlanOptions":  small,
+			"scorchPersisterOptions": map[string]interface{}{"PersisterNapTimeMSec": 2, "PersisterNapUnderNumFiles": 4},
+		})
 	case "scorch-mem":
 		return bleve.NewUsing("", bleve.NewIndexMapping(), scorch.Name, scorch.Name, map[string]interface{}{"scorchMergePlanOptions": small})
 	case "upsidedown-gtreap":
@@ -170,7 +176,7 @@ func c11Child() {
 				case 10:
 					call(g, k, "stats", func() error { _ = idx.StatsMap(); _ = idx.Stats(); return errVoid })
 				case 11, 12:
-					if engine == "scorch-disk" && rr.Chance(50) {
+					if strings.HasPrefix(engine, "scorch-disk") && rr.Chance(50) {
 						call(g, k, "copyto", func() error {
 							d := filepath.Join(dir, fmt.Sprintf("bk-%d-%d", g, k))
 							defer os.RemoveAll(d)
@@ -264,7 +270,7 @@ func c11Child() {
 }
 
 func runC11(t *Trace, r *Rng, tier string, _ []string) {
-	rounds := 4
+	rounds := 5
 	if tier == "thorough" {
 		rounds = 60
 	}
